@@ -51,12 +51,12 @@ func init() {
 			"distinct_nontrivial = distinct (family, backend/config, metric-vector) outcomes with at least 3 non-zero metrics",
 		Required:    []string{"a.sequential", "a.concurrent", "b.runs", "c.conservation", "d.panicking_builder_runs", "metric.cache_hit", "metric.cache_miss", "metric.cache_expired", "metric.cache_write", "metric.cache_delete", "metric.cache_build", "metric.cache_failed", "metric.cache_refreshed", "expireall.entries", "deleteall.entries"},
 		Assumptions: []string{"evictions are off (no limits, janitor interval 1h)", "cache_refreshed is emitted before the refresh write: counted as attempts seen by the wrapper (workloads inject no backend faults, so attempts == re-stores)"},
-		Timeout:     func(string) time.Duration { return 20 * time.Minute },
+		Timeout:     func(string) time.Duration { return 45 * time.Minute },
 	})
 }
 
 func runC18(b *Batch) {
-	n := b.Pick(2400, 96000) / b.NBatches
+	n := b.Pick(2400, 800000) / b.NBatches
 	for i := 0; i < n; i++ {
 		if b.Skip(i) {
 			continue
